@@ -347,6 +347,32 @@ func cmdRun(args []string) int {
 	}
 	nw := *workers
 	var wg sync.WaitGroup
+	doneCh := make(chan struct{})
+	if *verbose {
+		go func() {
+			tk := time.NewTicker(15 * time.Second)
+			defer tk.Stop()
+			for {
+				select {
+				case <-doneCh:
+					return
+				case <-tk.C:
+					mu.Lock()
+					paths, q := 0, int64(0)
+					busy := ""
+					for i := range results {
+						paths += results[i].out.Paths
+						q += results[i].out.Solver.Queries
+						if !start[i].IsZero() && results[i].out.Paths == 0 && busy == "" {
+							busy = results[i].job.h.Fn + " " + results[i].job.label
+						}
+					}
+					fmt.Fprintf(os.Stderr, "  ... %.0fs: %d paths done, %d queries, %d tasks queued, %d running; first unfinished: %s\n", time.Since(t0).Seconds(), paths, q, len(stack), active, busy)
+					mu.Unlock()
+				}
+			}
+		}()
+	}
 	for k := 0; k < nw; k++ {
 		wg.Add(1)
 		go func() {
@@ -432,6 +458,7 @@ func cmdRun(args []string) int {
 		}()
 	}
 	wg.Wait()
+	close(doneCh)
 	if *verbose {
 		for _, r := range results {
 			fmt.Fprintf(os.Stderr, "  %s[%d] %s: paths=%d viol=%d inconcl=%d queries=%d %.2fs\n", r.job.h.Fn, r.job.c, r.job.label, r.out.Paths, len(r.out.Violations), len(r.out.Inconclusive), r.out.Solver.Queries, r.dur.Seconds())
